@@ -146,6 +146,7 @@ class Agg:
         self.samples = []
         self.nontrivial = set()
         self.prop_obligations = 0
+        self.diff_candidates = []  # (case, inputs of one explored path) for differential validation
 
     def mine(self, label):
         # un-labelled panics of the code under test (index out of bounds, unwrap on None,
@@ -180,5 +181,47 @@ class Agg:
                     self.violations.append((case, v))
             if r["complete"] and nontrivial_rule(r):
                 self.nontrivial.add(json.dumps(case, sort_keys=True))
+            if r["witnesses"] and r.get("observed", 0) > 0 and case.get("kind") in ("dd", "solve", "fringe", "cache", "dominance") and len(self.diff_candidates) < 400:
+                self.diff_candidates.append((case, r["witnesses"][-1]))
             if len(self.samples) < 4 and r["paths"] > 1:
                 self.samples.append(dict(case=case, structure=rec.get("shape", ""), symbolic_inputs=r["inputs_decl"][:40], paths=r["paths"], queries=r["queries"], obligations=r["obligations"], complete=r["complete"], one_path_model=(r["witnesses"] or [{}])[0], obligation_labels=r["labels"]))
+
+
+def differential(symx_bin, candidates, n):
+    """9.1 self-validation: the shadow build (all inputs concrete) and the native build (unmodified crate,
+    Cost = isize) must observe exactly the same values / solutions / cut-sets / DOT text on the same inputs.
+    returns (validated, mismatches)"""
+    if not candidates or n <= 0:
+        return 0, []
+    try:
+        nat, _ = build.ensure_native()
+    except build.BuildError as e:
+        return 0, [dict(error="native build failed: %s" % e)]
+    step = max(1, len(candidates) // n)
+    picked = candidates[::step][:n]
+
+    def one(cw):
+        case, wit = cw
+        b = dict(case)
+        b["concrete"] = "1"
+        b["inputs"] = ",".join("%s:%d" % (k, v) for k, v in wit.items())
+        b.pop("max_paths", None)
+        _, r1, e1, _ = run_bundle(symx_bin, b, 120)
+        _, r2, e2, _ = run_bundle(nat, b, 120)
+        if not r1 or not r2:
+            return dict(case=case, error="no report (%s / %s)" % (e1, e2))
+        d1 = [(x["report"]["digest"], x["report"]["observed"]) for x in r1]
+        d2 = [(x["report"]["digest"], x["report"]["observed"]) for x in r2]
+        if d1 != d2:
+            return dict(case=case, inputs=wit, shadow=d1, native=d2)
+        return None
+
+    bad = []
+    ok = 0
+    with cf.ThreadPoolExecutor(max_workers=NPROC) as ex:
+        for res in ex.map(one, picked):
+            if res is None:
+                ok += 1
+            else:
+                bad.append(res)
+    return ok, bad
